@@ -39,7 +39,8 @@ ElemsOfSeq(s) == {s[i] : i \in 1..Len(s)}
 
 (* ------------------------------------------------------------------------------------------------------ doc *)
 Accepted(g, b)   == b.rc = 0
-Quiet(g, b)      == b.flagged = <<>>
+\* (a run that failed is reported by Accepted, with its message)
+Quiet(g, b)      == b.rc = 0 => b.flagged = <<>>
 Validates(g, b)  == b.rc = 0 => (b.produced /\ b.decoded /\ b.revalidated = "ok")
 Identity(g, b)   == (b.rc = 0 /\ b.decoded) => (b.ns = g.ns /\ b.version = g.version)
 DocClauses(g, b) == [Accepted |-> Accepted(g, b), Quiet |-> Quiet(g, b), Validates |-> Validates(g, b), Identity |-> Identity(g, b)]
@@ -171,8 +172,8 @@ EnumErrorDomain(g, b) == (Judged(g, b) /\ g.tag \in {"enumeration", "bitfield"})
 \* floating point by the shortest repr of the IEEE value, text verbatim
 ConstValue(g, b) == (Judged(g, b) /\ g.tag = "constant") =>
     LET f == The(g, b).fl IN
-    CASE f.cls = "int"   -> g.fl.fits[f.width] => g.fl.residues[f.width] = f.value      \* a literal outside the stated type: silent
-      [] f.cls = "bool"  -> (g.fl.value \in {"true", "TRUE", "1"}) = (f.value # "0")
+    CASE f.cls = "int"   -> g.fl.fits[f.fit] => g.fl.residues[f.width] = f.value        \* a literal outside the range of the stored type: silent
+      [] f.cls = "bool"  -> (g.fl.value \in {"true", "TRUE", "True"} \/ g.fl.residues["64"] \notin {"", "0"}) = (f.value # "0")
       [] f.cls = "float" -> (IF f.tag = "gfloat" THEN g.fl.fvalue32 ELSE g.fl.fvalue) = f.value
       [] f.cls = "text"  -> g.fl.value = f.value
       [] OTHER -> TRUE
@@ -194,6 +195,22 @@ TypeStruct(g, b) == (Judged(g, b) /\ g.tag \in {"class", "interface"}) =>
 RecordFlags(g, b) == (Judged(g, b) /\ g.tag = "record") =>
     LET f == The(g, b).fl IN /\ f.foreign = Is1(g.fl.foreign) /\ f.isGtypeStruct = (g.fl.gtypeStructFor # "")
                              /\ f.copyFunc = g.fl.copyFunc /\ f.freeFunc = g.fl.freeFunc
+
+(* sub-classes of failing input that recorded findings are matched on (reporting in AcceptTrace, tolerance in AcceptMC) *)
+\* the parameters whose optional bit differs from what the GIR states
+BadOptional(g, b) == LET c == The(g, b) IN {i \in PIdx(g, c) : ~Ambiguous(g.fl.params[i]) /\ c.fl.params[i].optional # Is1(g.fl.params[i].optional)}
+OnlyInoutAllowNone(g, b) == \A i \in BadOptional(g, b) : LET p == g.fl.params[i] IN
+                                p.direction = "inout" /\ Is1(p.nullable) /\ Is1(p.allowNone) /\ ~Is1(p.optional)
+BadCallerAllocates(g, b) == LET c == The(g, b) IN {i \in PIdx(g, c) : g.fl.params[i].ca # "" /\ c.fl.params[i].ca # Is1(g.fl.params[i].ca)}
+OnlyInoutCallerAllocates(g, b) == \A i \in BadCallerAllocates(g, b) : g.fl.params[i].direction = "inout" /\ Is1(g.fl.params[i].ca)
+\* the member a reference names is not exposed by the container at all (b.ownerMethods / b.ownerProps: names the container exposes)
+TargetAbsent(g, b, c) ==
+    CASE c = "VFuncInvoker" -> g.fl.invoker \notin ElemsOfSeq(b.ownerMethods)
+      [] c = "PropAccessors" -> (g.fl.setter # "" /\ g.fl.setter \notin ElemsOfSeq(b.ownerMethods))
+                                \/ (g.fl.getter # "" /\ g.fl.getter \notin ElemsOfSeq(b.ownerMethods))
+      [] c = "Accessor" -> (g.fl.setProp # "" /\ g.fl.setProp \notin ElemsOfSeq(b.ownerProps))
+                           \/ (g.fl.setProp = "" /\ g.fl.getProp \notin ElemsOfSeq(b.ownerProps))
+      [] OTHER -> FALSE
 
 ElemClauses(g, b) == [
     Exposed |-> Exposed(g, b), Absent |-> Absent(g, b), ShadowedServed |-> ShadowedServed(g, b), Deprecated |-> Deprecated(g, b),
